@@ -30,6 +30,9 @@ type c04Case struct {
 	Results []c04Result  `json:"results,omitempty"` // scripted results, used in order for pass-through requests
 	Handler string       `json:"handler"`           // recorder | example
 	Sizes   []int        `json:"sizes,omitempty"`
+	// Tail: bytes that are NOT a valid request, sent after the stream (the server may answer them with well-formed
+	// error frames or close the connection)
+	Tail resp.Bin `json:"tail,omitempty"`
 }
 
 func firstName(v resp.Value) string {
@@ -70,6 +73,7 @@ func evalC04(c c04Case) *Failure {
 		}
 	}
 	data, _ := resp.EncodeAll(c.Stream)
+	data = append(data, c.Tail...)
 	conn := connsim.NewPreloaded(1, connsim.Chunks(data, c.Sizes))
 	o := connsim.Serve(srv, conn, serveTimeout())
 	var ss []string
@@ -90,6 +94,18 @@ func evalC04(c c04Case) *Failure {
 			nreq = i + 1
 			break
 		}
+	}
+	if len(c.Tail) > 0 {
+		what += fmt.Sprintf(" followed by the malformed bytes %q", clip(c.Tail))
+		// whatever the server makes of the tail, its output stays well-formed; the requests before it were answered
+		frames, _, err := resp.DecodeAll(conn.Out())
+		if err != nil {
+			return failf("c04|malformed", "%s: the bytes written are not a concatenation of complete RESP values (%v): %q", what, err, clip(conn.Out()))
+		}
+		if len(frames) < nreq {
+			return failf("c04|frame-count", "%s: %d reply frames, the %d well-formed requests alone need %d: %q", what, len(frames), len(c.Stream), nreq, clip(conn.Out()))
+		}
+		return c04CheckOut(what, conn.Out(), len(frames))
 	}
 	return c04CheckOut(what, conn.Out(), nreq)
 }
@@ -326,7 +342,7 @@ func genC04Case(rt *rapid.T, avoid func(string) bool) (c04Case, map[string]bool)
 			var r c04Result
 			switch rapid.IntRange(0, 6).Draw(rt, "rescls") {
 			case 6:
-				r.Odd = rapid.SampledFrom([]string{"nil-array", "no-type", "unknown-type", "nil-in-array", "nil-in-big-array"}).Draw(rt, "odd")
+				r.Odd = rapid.SampledFrom([]string{"nil-array", "no-type", "unknown-type", "nil-in-array", "nil-in-big-array", "nil-in-huge-array", "walked-array"}).Draw(rt, "odd")
 				labels["nil-result"] = true
 				labels["odd-message"] = true
 			case 0:
@@ -363,7 +379,7 @@ func genC04Case(rt *rapid.T, avoid func(string) bool) (c04Case, map[string]bool)
 func TestC04(t *testing.T) {
 	h := newHarness(t, "C04", "client streams of 1..6 valid RESP values of every type: command arrays with hostile arguments (all byte values, CRLF followed by forged +OK/:1/$-1 frames) in names, keys and values; "+
 		"non-array top-level values; arrays whose first element is null, an integer, an error, a nested or empty array; empty arrays. Handler = recording double scripted with arbitrary value trees, nil messages, "+
-		"errors with arbitrary text, message+error (for pass-through commands), or the bundled example store (stored values echoed back). A generator of pipelines with replies of several KiB and QUIT somewhere inside (everything written before the connection ends must be complete frames). Another holds back every reply write of one connection (a slow reader) while a peer connection is served, then lets it through: the bytes delivered must be the bytes serialized. Oracle: the whole output decodes under the strict decoder into exactly one frame per request, "+
+		"errors with arbitrary text, message+error (for pass-through commands), or the bundled example store (stored values echoed back). A generator appends bytes that are not a request (blank lines, stray CR/LF, inline text, bulk strings longer than declared, mutated frames): whatever is written in answer must be frames too. A generator of pipelines with replies of several KiB and QUIT somewhere inside (everything written before the connection ends must be complete frames). Another holds back every reply write of one connection (a slow reader) while a peer connection is served, then lets it through: the bytes delivered must be the bytes serialized. Oracle: the whole output decodes under the strict decoder into exactly one frame per request, "+
 		"no status/error frame carries CR or LF. Non-trivial: CR/LF in a position that can reach a reply, a request that is not an array of bulks, or a nil/error handler result. Distinct = distinct (stream, script).")
 	defer h.Finish()
 	h.Probes()
@@ -386,6 +402,28 @@ func TestC04(t *testing.T) {
 			}
 			h.Col.Sample(map[string]any{"stream": ss, "handler": c.Handler, "scripted_results": len(c.Results)})
 		}
+		h.Fail(rt, "c04.stream", c, evalC04(c))
+	})
+
+	// well-formed requests followed by bytes that are not a request: replies to protocol errors are frames too
+	h.Rapid("malformed-tail", h.N(4000, 60000), func(rt *rapid.T) {
+		c := c04Case{Handler: rapid.SampledFrom([]string{"example", "recorder"}).Draw(rt, "handler")}
+		for i, n := 0, rapid.IntRange(0, 2).Draw(rt, "nreq"); i < n; i++ {
+			c.Stream = append(c.Stream, resp.Cmd(rapid.SampledFrom([][]string{{"PING"}, {"ECHO", "x"}, {"GET", "k"}, {"SET", "k", "v"}}).Draw(rt, "req")...))
+		}
+		switch rapid.IntRange(0, 2).Draw(rt, "tailcls") {
+		case 0:
+			c.Tail = []byte(rapid.SampledFrom([]string{"\r\n", "\n", "\r", "\r\r\n", "PING\r\n", "\r\nPING\r\n", "$3\r\nabcde\r\n", "$3\r\nabc\r\r\n", "$3\r\nabc\n\n", "*1\r\n$4\r\nPING\r\n\r\n", "*1\r\n\r\n", "*2\r\n$1\r\na\r\n\n",
+				"*1\r\n\n", "$\r\n", "*\n\r\n", "+\rOK\r\n", "?\r\n", "\x00\r\n", "$1\r\n\r\r\n\r\n", "*1\r\n$1\r\n\n\r\r\n"}).Draw(rt, "fixedtail"))
+		default:
+			base := resp.Cmd(rapid.SampledFrom([][]string{{"PING"}, {"GET", "k"}, {"SET", "k", "a\r\nb"}}).Draw(rt, "base")...).Bytes()
+			c.Tail = mutate(rt, base, []byte("\r\n"))
+			if _, _, err := resp.DecodeAll(c.Tail); err == nil || hazardous(c.Tail) {
+				c.Tail = []byte("\r\n") // the mutation left a valid stream (or a size bomb): use the blank line
+			}
+		}
+		data, _ := resp.EncodeAll(c.Stream)
+		h.Col.Case(true, append(append(data, 0), c.Tail...), "malformed-tail", "handler:"+c.Handler)
 		h.Fail(rt, "c04.stream", c, evalC04(c))
 	})
 
